@@ -62,7 +62,7 @@ var c18Locations = []string{"body", "cell", "nested", "header", "footer", "heade
 var c18SurrNames = []string{"plain", "br-before", "br-after", "br-same-run", "keepNext", "border", "tabs", "outline", "pflags", "pfmt", "bookmark", "section", "extrapart", "drawing", "tablerich", "all"}
 
 // data classes for {{name}}; {{other}} always has the value "Z2"
-var c18DataNames = []string{"plain", "meta", "ctrl", "braces", "multiline", "empty", "missing"}
+var c18DataNames = []string{"plain", "meta", "entity", "ctrl", "braces", "multiline", "empty", "missing"}
 
 func c18DataValue(class string) (string, bool) {
 	switch class {
@@ -70,6 +70,9 @@ func c18DataValue(class string) (string, bool) {
 		return "Alice", true
 	case "meta":
 		return `<&>"'`, true
+	case "entity":
+		// text that is spelled like character references: it is text, and must arrive as exactly these characters
+		return "AT&amp;T &lt;b&gt; &#65;", true
 	case "ctrl":
 		return "a\x01b", true
 	case "braces":
@@ -1049,6 +1052,8 @@ func c18ValueClass(v string) string {
 		return "control-char"
 	case strings.Contains(v, "{{"):
 		return "braces"
+	case strings.Contains(v, "&amp;") || strings.Contains(v, "&#"):
+		return "entity-like"
 	case strings.ContainsAny(v, `<&>"'`):
 		return "xml-metachar"
 	case strings.Contains(v, "\n"):
